@@ -62,6 +62,13 @@ Theorem C18_clear_unlinks : forall l s fuel, repr l s -> length l <= fuel ->
 Proof. exact clear_push_pre. Qed.
 Print Assumptions C18_clear_unlinks.
 
+(* ... so after clear every node, wherever it stood before, can be registered again and is then the only element (no stale
+   link of the old list survives to pull former neighbours back in) *)
+Theorem C18_clear_then_push : forall l s fuel n, repr l s -> length l <= fuel ->
+  push_pre (clear fuel s) n = true /\ repr [n] (push_back (clear fuel s) n).
+Proof. exact clear_then_push. Qed.
+Print Assumptions C18_clear_then_push.
+
 (* enumeration with begin / ++ / end yields exactly the list, in order (fuel: any bound on the
    number of iterator increments that is at least the length) *)
 Theorem C18_iter : forall l s fuel, repr l s -> length l <= fuel -> iterate fuel s = Some l.
@@ -148,3 +155,10 @@ Example ex_double_push_loops :
   let s := push_back (run 2 [Push 0; Push 1]) 1 in
   push_pre (run 2 [Push 0; Push 1]) 1 = false /\ iterate 100 s = None.
 Proof. vm_compute. split; reflexivity. Qed.
+
+(* clear on three nodes, then the former MIDDLE node registered again: it is alone, and its former neighbours are unlinked *)
+Example ex_clear_then_push_middle :
+  let s := run 5 [Push 0; Push 1; Push 2; Clear; Push 1] in
+  iterate 5 s = Some [1] /\ size 5 s = Some 1 /\ fault s = false
+  /\ nxt s 1 = None /\ prv s 1 = Some 1 /\ prv s 0 = None /\ nxt s 0 = None /\ prv s 2 = None /\ nxt s 2 = None.
+Proof. vm_compute. repeat split; reflexivity. Qed.
